@@ -5,7 +5,7 @@ import ast
 import re
 
 from ..core.tree import AnalysisError
-from ..core.astutil import walk_no_nested, call_name, short, src
+from ..core.astutil import walk_no_nested, call_name, short, src, resolve_local
 
 LEVELS = ("set", "language", "caption", "node")
 
@@ -110,46 +110,49 @@ def run(ctx, report):
     # --- WebVTT ----------------------------------------------------------------
     cp = idx.get_function("pycaption/webvtt.py", "WebVTTWriter._convert_positioning")
     report.covered(cp)
-    from .c13 import _enclosing_tests
-    rel_guards = _enclosing_tests(cp.node, "as_percentage_of")
     rel_calls = [c for c in walk_no_nested(cp.node) if isinstance(c, ast.Call) and isinstance(c.func, ast.Attribute)
                  and c.func.attr == "as_percentage_of"]
     ok = len(rel_calls) == 1 and [src(a) for a in rel_calls[0].args] == ["self.video_width", "self.video_height"]
     report.check(ok, "R-FIELD-ROUTING", cp, "WebVTT relativizes with the writer's video width and height",
                  [short(c) for c in rel_calls], "4")
     lay = cp.params[1]
-    extra = [g for g in rel_guards if g not in (lay, "already_relative", f"not ({lay}.webvtt_positioning)",
-                                                f"not (not {lay})")
-             and not g.startswith("not (not ") and g != f"{lay}"]
-    flag_sets = []
-    for n in walk_no_nested(cp.node):
-        if isinstance(n, ast.Assign) and src(n.targets[0]) == "already_relative":
-            flag_sets.append(n)
-    # the only way to skip as_percentage_of is already_relative, which is True only under layout.is_relative()
-    true_sets = [n for n in flag_sets if isinstance(n.value, ast.Constant) and n.value.value is True]
-    ok_flag = True
-    detail = []
-    for n in true_sets:
-        enc = _enclosing_of_stmt(cp.node, n)
-        detail.append(enc)
-        if f"{lay}.is_relative()" not in enc:
-            ok_flag = False
-    skip_only_flag = sorted(g for g in rel_guards if "already_relative" in g) == ["not already_relative"] \
-        or rel_guards == []
-    others = [g for g in rel_guards if "already_relative" not in g and "webvtt_positioning" not in g
-              and g not in (lay, f"not (not {lay})")]
-    report.check(ok_flag and skip_only_flag and not others, "R-MUST-SANITISE", cp,
+    # must-pass rule on feasible paths (boolean locals and repeated tests tracked)
+    from ..engines.pathrules import feasible_paths
+
+    def classify(n):
+        if isinstance(n, ast.Call) and isinstance(n.func, ast.Attribute) and n.func.attr == "as_percentage_of" \
+                and src(n.func.value) == lay:
+            return "REL"
+        return None
+    paths = feasible_paths(cp, classify, normalise=lambda t: src(resolve_local(cp, t)))
+    if not paths:
+        raise AnalysisError("WebVTTWriter._convert_positioning: no feasible path extracted")
+    IS_REL, RELATIVIZE = f"{lay}.is_relative()", "self.relativize"
+    bad, bad_drop, n_emit = [], [], 0
+    for items in paths:
+        tests = {it[1]: it[2] for it in items if it[0] == "test"}
+        end = [it for it in items if it[0] == "end"][-1]
+        empty = end[1] == "return" and isinstance(end[2].value, ast.Constant) and end[2].value.value == ""
+        passthrough = tests.get(f"{lay}.webvtt_positioning") is True or tests.get(lay) is False
+        rel = any(it[0] == "ev" and it[1] == "REL" for it in items)
+        if tests.get(RELATIVIZE) is False and tests.get(IS_REL) is False and not empty and end[1] != "raise":
+            bad_drop.append(sorted(f"{k}={v}" for k, v in tests.items()))
+        if empty or passthrough or end[1] == "raise":
+            continue
+        n_emit += 1
+        if not (rel or tests.get(IS_REL) is True):
+            bad.append(sorted(f"{k}={v}" for k, v in tests.items()))
+    if n_emit == 0:
+        raise AnalysisError("WebVTTWriter._convert_positioning: no path reaches the cue settings")
+    report.check(not bad, "R-MUST-SANITISE", cp,
                  "every size that reaches a cue setting passed as_percentage_of or the is_relative() guard",
-                 {"guards_of_as_percentage_of": rel_guards, "already_relative_set_true_under": detail,
-                  "unexpected_guards": others}, "4")
-    # absolute layout with relativize off -> positioning dropped (return "")
-    rets = []
-    for n in walk_no_nested(cp.node):
-        if isinstance(n, ast.Return) and isinstance(n.value, ast.Constant) and n.value.value == "":
-            rets.append(_enclosing_of_stmt(cp.node, n))
-    ok = any("not self.relativize" in " ".join(r) and any("is_relative" in x for x in r) for r in rets)
-    report.check(ok, "R-MUST-SANITISE", cp, "absolute layout with relativize off: no positioning is written",
-                 {"empty_returns_under": rets}, "4")
+                 {"feasible_paths": len(paths), "paths_reaching_cue_settings": n_emit,
+                  "paths_without_relativization_or_guard": bad[:4]}, "4")
+    seen_cfg = any(it[0] == "test" and it[1] == RELATIVIZE for items in paths for it in items)
+    if not seen_cfg:
+        raise AnalysisError("WebVTTWriter._convert_positioning: the relativize switch is not tested")
+    report.check(not bad_drop, "R-MUST-SANITISE", cp, "absolute layout with relativize off: no positioning is written",
+                 {"paths_that_still_write_settings": bad_drop[:4]}, "4")
 
 
 def _enclosing_of_stmt(fnnode, target):
